@@ -183,7 +183,7 @@ Definition rewind_body (b : body) (p : pos) : body + err :=
       if f_has_seek f then
         if f_seek_ok f then inl (BFile (mkFile (f_text f) (f_data f) n (f_has_tell f) (f_tell_ok f) (f_has_seek f) (f_seek_ok f)))
         else inr EUnrewindable
-      else inr EValueError
+      else inr EUnrewindable          (* a recorded position but no seek() *)
   | _, PFailed => inr EUnrewindable
   | _, _ => inr EValueError
   end.
